@@ -77,3 +77,29 @@ Theorem C08_allowance_between_cold_and_full : forall thr cold period s,
   is_finite 53 1024 (allowed_of (with_stored w s)) = true /\
   (q / c * (1 - / 1099511627776) <= a <= q * (1 + / 1099511627776))%R.
 Proof. exact c08_allowance_bounds. Qed.
+
+(** never more than about q per statistic interval: after every history, an entry is admitted only when the pass
+    count of the current window plus its batch (added in binary64, as the code does) is at most q (1 + 2^-40) *)
+From SV Require Import Proofs.C08Admit.
+Theorem C08_admitted_within_threshold : forall c base thr cold period l batch w',
+  is_finite 53 1024 thr = true -> (1 <= B2R 53 1024 thr <= 1073741824)%R ->
+  (cold <= 1048576)%N -> (1 <= period <= 1048576)%N ->
+  let w := wfold c (wworld0 c base thr cold period) l in
+  wexec c w (WB batch) = (w', WOAdmit) ->
+  exists cur, node_sum c (ww_node w) (ww_now w) Pass = ROk cur /\
+    is_finite 53 1024 (fadd (f64_of_N cur) (f64_of_N batch)) = true /\
+    (B2R 53 1024 (fadd (f64_of_N cur) (f64_of_N batch)) <= B2R 53 1024 thr * (1 + / 1099511627776))%R.
+Proof. exact c08_admitted_within_threshold_fin. Qed.
+
+(** never less than about q/c under saturating demand: an entry is rejected only when the pass count of the
+    current window plus its batch exceeds q/c (1 - 2^-40) (or is beyond the binary64 range) *)
+Theorem C08_blocked_only_above_cold_rate : forall c base thr cold period l batch w',
+  is_finite 53 1024 thr = true -> (1 <= B2R 53 1024 thr <= 1073741824)%R ->
+  (cold <= 1048576)%N -> (1 <= period <= 1048576)%N ->
+  let w := wfold c (wworld0 c base thr cold period) l in
+  wexec c w (WB batch) = (w', WOBlock) ->
+  exists cur, node_sum c (ww_node w) (ww_now w) Pass = ROk cur /\
+    (is_finite 53 1024 (fadd (f64_of_N cur) (f64_of_N batch)) = true ->
+     (B2R 53 1024 thr / IZR (Z.of_N (if (cold <=? 1)%N then 3%N else cold)) * (1 - / 1099511627776)
+        < B2R 53 1024 (fadd (f64_of_N cur) (f64_of_N batch)))%R).
+Proof. exact c08_blocked_only_above_cold_rate. Qed.
